@@ -27,8 +27,9 @@ import (
 )
 
 type heldUpstream struct {
-	arrived atomic.Int32
-	release chan struct{}
+	arrived   atomic.Int32
+	release   chan struct{}
+	shareable bool // answer with an ordinary (shareable) SERVFAIL instead of a request-local one
 }
 
 func (u *heldUpstream) Name() string { return "held-upstream" }
@@ -37,8 +38,10 @@ func (u *heldUpstream) ServeDNS(ctx context.Context, ch *middleware.Chain) {
 	<-u.release
 	res := new(dns.Msg)
 	res.SetRcode(ch.Request.Msg(), dns.RcodeServerFailure)
-	ctx, _ = middleware.EnsureResolutionAttemptGuard(ctx)
-	middleware.MarkRequestLocalFailureResponse(ctx, res, middleware.ErrResolutionAttemptLimit)
+	if !u.shareable {
+		ctx, _ = middleware.EnsureResolutionAttemptGuard(ctx)
+		middleware.MarkRequestLocalFailureResponse(ctx, res, middleware.ErrResolutionAttemptLimit)
+	}
 	_ = ch.Writer.WriteMsg(res)
 	ch.Cancel()
 }
@@ -141,4 +144,81 @@ func probeGroup(k cache.FailureQuestionKey) string {
 		}
 	}
 	return exact
+}
+
+// fail cohort <now> <n> <name type class cd scope>
+// n identical requests arrive together; the one leader's resolution ends in an
+// ordinary SERVFAIL, which is recorded. The followers wake up inside the
+// backoff that has just begun: they must be answered from the failure cache
+// (SERVFAIL, EDE 13) — the upstream is asked exactly once for the whole cohort.
+func execCohort(a []string) vlib.Res {
+	setNow(a[0])
+	n := vlib.Atoi(a[1])
+	k := parseQ(a[2:7])
+	cache.VerifC13ForgetAnswersScoped(full, k.Question, k.Scope)
+	_, preOK := fc.Lookup(k)
+	ref.observe(refQ(k), cache.VerifC13QuestionHash(k))
+	up := &heldUpstream{release: make(chan struct{}), shareable: true}
+	var finished atomic.Int32
+	var wg sync.WaitGroup
+	replies := make([]*dns.Msg, n)
+	for i := 0; i < n; i++ {
+		wg.Add(1)
+		go func(i int) {
+			defer wg.Done()
+			defer finished.Add(1)
+			ch := middleware.NewChain([]middleware.Handler{full, up})
+			w := mock.NewWriter("udp", fmt.Sprintf("192.0.2.%d:4242", 10+i))
+			req := newReq(k)
+			req.SetEdns0(1232, false)
+			if k.Scope.IsValid() {
+				req.IsEdns0().Option = append(req.IsEdns0().Option, ecsOption(k.Scope, 0))
+			}
+			ch.Reset(w, req)
+			ctx, cancel := context.WithTimeout(context.Background(), 20*time.Second)
+			defer cancel()
+			ch.Next(ctx)
+			replies[i] = w.Msg()
+		}(i)
+	}
+	stable, last := 0, int32(-1)
+	for t := 0; t < 400 && stable < 12; t++ {
+		time.Sleep(5 * time.Millisecond)
+		cur := up.arrived.Load()*1000 + finished.Load()
+		if cur == last && up.arrived.Load()+finished.Load() > 0 {
+			stable++
+		} else {
+			stable = 0
+		}
+		last = cur
+	}
+	close(up.release)
+	wg.Wait()
+	cache.VerifC13ForgetAnswersScoped(full, k.Question, k.Scope)
+	calls := int(up.arrived.Load())
+	ede13 := 0
+	for _, m := range replies {
+		if m != nil {
+			for _, c := range edeCodes(m) {
+				if c == 13 {
+					ede13++
+				}
+			}
+		}
+	}
+	h, ok := fc.Lookup(k)
+	or := "ok"
+	switch {
+	case enabled && preOK && calls > 0:
+		or = "FAIL sig=cohort/active-failure-went-upstream"
+	case enabled && calls > 1:
+		or = fmt.Sprintf("FAIL sig=cohort/followers-went-upstream-inside-the-leaders-backoff upstream=%d of %d", calls, n)
+	case enabled && ok && h.Kind == cache.FailureKindQuestion && !preOK:
+		or = ref.recorded(refQ(k), h, "cohort")
+	}
+	if !enabled {
+		// with the switch off nothing is shared: every waiter may ask for itself
+		return vlib.Res{Impl: fmt.Sprintf("disabled len=%d", fc.Len()), Oracle: ref.storeWrite(fc.Len(), "cohort"), Tags: "nt"}
+	}
+	return vlib.Res{Impl: fmt.Sprintf("upstream=%d len=%d %s", calls, fc.Len(), fmtLookup(h, ok)), Oracle: or, Tags: "nt"}
 }
